@@ -4,7 +4,7 @@ set -u
 patch=$(realpath "$1"); prop=$2; tier=${3:-quick}
 cd /repo || exit 2
 if [ -n "$(git status --porcelain)" ]; then echo "repo not clean"; exit 2; fi
-git apply "$patch" 2>/dev/null || git apply --3way "$patch" >/dev/null 2>&1 || { echo "patch does not apply"; exit 2; }
+git apply "$patch" 2>/dev/null || git apply --3way "$patch" >/dev/null 2>&1 || { git reset -q --hard HEAD; echo "patch does not apply"; exit 2; }
 cd /verif && bin/verif check "$prop" --tier "$tier" > /tmp/seedtest.out 2>&1
 rc=$?
 cd /repo && git reset -q --hard HEAD && git clean -fdq
